@@ -101,7 +101,9 @@ def opEvents (op : List String) : Option (List (String × String)) :=
   match op with
   | ["deliver", kind, name] => some [(kind, name)]
   | ["burst", _, evs] =>
-    (commaList evs).mapM (fun e => match e.splitOn ":" with | [k, n] => some (k, n) | _ => none)
+    (commaList evs).mapM (fun e => match e.splitOn ":" with
+      | k :: n :: rest => some (k, ":".intercalate (n :: rest))   -- the NAME may contain colons
+      | _ => none)
   | _ => none
 
 /-- the C11 predicate on the implementation's history -/
